@@ -785,6 +785,11 @@ func TestC20Sweep(t *testing.T) {
 	for i := range cat.Entries {
 		e := &cat.Entries[i]
 		key := e.Level + ":" + e.Method
+		// request targets in the other forms HTTP knows (absolute form with and without a path, asterisk form) and
+		// broken ones, for every method and query of the catalogue
+		for _, tv := range []string{"http://h", "http://h/", "http://h/bkt-a", "http://h/bkt-a/obj1", "*", "//", "/%", "?", "\\", ".", "bkt-a", "bkt-a/obj1"} {
+			cases = append(cases, caseA{Versioning: true, Spec: target(e), Caller: "root", Muts: []mut{{Where: "target", Value: tv}}})
+		}
 		for _, n := range relQuery[key] {
 			for _, v := range numeric {
 				cases = append(cases, caseA{Versioning: true, Spec: target(e), Caller: "root", Muts: []mut{{Where: "query", Name: n, Value: v}}})
